@@ -1,5 +1,6 @@
 """C02 — the parser reports exactly the events of the VT500 state machine (structural part)."""
 import hir
+import hirpp
 from core import AnchorMissing, Unrecognised, loc
 from rules import common_parse as cp
 from spec import vt500
@@ -25,6 +26,9 @@ def arms_by_variant(m, enum_path):
     """match on a fieldless enum → ({variant: arm}, default_arm|None)."""
     table, default = {}, None
     for a in m["arms"]:
+        if "guard" in a:
+            # `State::OscString if <cond> => ..` makes the table entry conditional on run-time data: not a table any more
+            raise Unrecognised(f"arm `{hirpp.pat(a['pat'])} if {hirpp.expr(a['guard'])[:60]}` is guarded: the {enum_path.split('::')[-1]} table must be unconditional")
         for alt in hir.pat_alternatives(a["pat"]):
             if alt["k"] == "ppath" and alt["path"].startswith(enum_path + "::"):
                 table[alt["path"].split("::")[-1]] = a
